@@ -63,8 +63,10 @@ GROWTH ROUND 6 (EXPECT list, IFDEF against the table, pass-loop causes, named si
     of C12, so these show as SPEC-DRIFT with the named claim + "model predicts n errors, asl counted m"; exit 0):
       asmerr.c CodeENDEXPECT reports only the first unmet expectation -> EndExpectReportsExactlyUnmet (21 reports);
       asmerr.c CodeEXPECT without the nesting test                     -> ExpectDoesNotNest (77 reports);
-      asmerr.c AddExpectError appends instead of prepending, asmpars.c IsSymbolDefined ignores the Defined mark:
-      see DESIGN.md section 12 / the round's report for the results.
+      asmerr.c AddExpectError appends instead of prepending -> EndExpectReportsExactlyUnmet on the directed program
+        EXPECT 2130,1200 / ENDEXPECT / EXPECT 1200,2130 / ENDEXPECT only (the error totals are the same);
+      asmpars.c IsSymbolDefined ignores the Defined mark -> IfdefReadsTable on the golden t_avr, pass 2 (the include
+        guard IFNDEF __REGAVRINC): a VIOLATION of C12.
     Recorded fields corrupted (TLC names the claim): an "expected" record dropped -> EndExpectReportsExactlyUnmet;
     EXPECT announcing another number -> ExpectListIsHistory; IFDEF <-> IFNDEF -> IfdefReadsTable; repass flag of a
     PASSEND cleared -> PhaseErrorForcesRepass; CodeLen + 1 -> CodeLenIsEmitted.
